@@ -1,4 +1,4 @@
-package props
+package c16
 
 import (
 	"encoding/json"
@@ -14,6 +14,7 @@ import (
 	"verif/internal/ev"
 	"verif/internal/harness"
 	"verif/internal/numref"
+	. "verif/internal/pbt"
 )
 
 // C16 — numeric for loops iterate exactly the manual's sequence and terminate.
@@ -21,7 +22,7 @@ import (
 const c16Cap = 50
 
 type c16Case struct {
-	A, B, C opnd
+	A, B, C Opnd
 	Route   string // "args": operands are runtime values; "literal": spelled in the source
 }
 
@@ -37,18 +38,18 @@ const c16Body = `
   emit("end", n)
 `
 
-func c16Lattice() []opnd {
+func c16Lattice() []Opnd {
 	p53 := int64(1) << 53
 	two63 := math.Ldexp(1, 63)
-	return []opnd{
-		oInt(0), oInt(1), oInt(-1), oInt(2), oInt(-2), oInt(3), oInt(p53), oInt(-p53), oInt(p53 + 1),
-		oInt(math.MaxInt64 - 2), oInt(math.MaxInt64 - 1), oInt(math.MaxInt64),
-		oInt(math.MinInt64), oInt(math.MinInt64 + 1), oInt(math.MinInt64 + 2),
-		oFloat(0), oFloat(math.Copysign(0, -1)), oFloat(0.5), oFloat(-0.5), oFloat(1), oFloat(-1), oFloat(2.5),
-		oFloat(float64(p53)), oFloat(-float64(p53)), oFloat(two63), oFloat(-two63), oFloat(two63 - 1024),
-		oFloat(1e308), oFloat(math.Inf(1)), oFloat(math.Inf(-1)), oFloat(math.NaN()),
-		oStr("1"), oStr("2.0"), oStr("0x10"), oStr(" 3 "),
-		oNil, oStr("x"), oTable,
+	return []Opnd{
+		OInt(0), OInt(1), OInt(-1), OInt(2), OInt(-2), OInt(3), OInt(p53), OInt(-p53), OInt(p53 + 1),
+		OInt(math.MaxInt64 - 2), OInt(math.MaxInt64 - 1), OInt(math.MaxInt64),
+		OInt(math.MinInt64), OInt(math.MinInt64 + 1), OInt(math.MinInt64 + 2),
+		OFloat(0), OFloat(math.Copysign(0, -1)), OFloat(0.5), OFloat(-0.5), OFloat(1), OFloat(-1), OFloat(2.5),
+		OFloat(float64(p53)), OFloat(-float64(p53)), OFloat(two63), OFloat(-two63), OFloat(two63 - 1024),
+		OFloat(1e308), OFloat(math.Inf(1)), OFloat(math.Inf(-1)), OFloat(math.NaN()),
+		OStr("1"), OStr("2.0"), OStr("0x10"), OStr(" 3 "),
+		ONil, OStr("x"), OTable,
 	}
 }
 
@@ -73,14 +74,14 @@ func (r *c16Runner) run(c c16Case) *harness.Trace {
 	s := r.session()
 	var tr *harness.Trace
 	if c.Route == "literal" {
-		src := fmt.Sprintf("return function() local A,B,C = %s, %s, %s\n%s end", c.A.lua(), c.B.lua(), c.C.lua(), c16Body)
+		src := fmt.Sprintf("return function() local A,B,C = %s, %s, %s\n%s end", c.A.Lua(), c.B.Lua(), c.C.Lua(), c16Body)
 		fn, err := s.Load("chunk", src)
 		if err != nil {
 			return &harness.Trace{CompileErr: err.Error()}
 		}
 		tr = s.Call(fn, 1_000_000, 0)
 	} else {
-		tr = s.Call(r.fn, 1_000_000, 0, c.A.value(), c.B.value(), c.C.value())
+		tr = s.Call(r.fn, 1_000_000, 0, c.A.Value(), c.B.Value(), c.C.Value())
 	}
 	if tr.Panic != "" {
 		r.s = nil // poisoned
@@ -111,15 +112,15 @@ func (o c16Outcome) String() string {
 }
 
 func c16Expect(c c16Case) (accept []c16Outcome, strOperand bool) {
-	ops := [3]opnd{c.A, c.B, c.C}
+	ops := [3]Opnd{c.A, c.B, c.C}
 	var nums [3]numref.Num
 	hasStr := false
 	for i, o := range ops {
-		switch o.kind() {
+		switch o.Kind() {
 		case 'i', 'f':
-			nums[i], _ = o.num()
+			nums[i], _ = o.Num()
 		case 's':
-			n, ok := numref.StringToNumber(o.str())
+			n, ok := numref.StringToNumber(o.Str())
 			if !ok {
 				return []c16Outcome{{err: true}}, false
 			}
@@ -133,15 +134,15 @@ func c16Expect(c c16Case) (accept []c16Outcome, strOperand bool) {
 	conv := func(vs []numref.Num, trunc bool) c16Outcome {
 		o := c16Outcome{trunc: trunc}
 		for _, v := range vs {
-			o.values = append(o.values, encNum(v))
+			o.values = append(o.values, EncNum(v))
 		}
 		return o
 	}
 	limits := []numref.Num{nums[1]}
-	if c.B.kind() == 's' {
+	if c.B.Kind() == 's' {
 		// a numeric string limit: converted to a float (reference implementation)
 		// or taken as the number it denotes
-		if n, _ := numref.StringToNumber(c.B.str()); n.IsInt {
+		if n, _ := numref.StringToNumber(c.B.Str()); n.IsInt {
 			limits = append(limits, n)
 		}
 	}
@@ -229,7 +230,7 @@ func c16Check(c c16Case, tr *harness.Trace) string {
 		}
 	}
 	var sb strings.Builder
-	fmt.Fprintf(&sb, "for v = %s, %s, %s (%s route): golua gave %s", c.A.pretty(), c.B.pretty(), c.C.pretty(), c.Route, got)
+	fmt.Fprintf(&sb, "for v = %s, %s, %s (%s route): golua gave %s", c.A.Pretty(), c.B.Pretty(), c.C.Pretty(), c.Route, got)
 	if got.err {
 		fmt.Fprintf(&sb, " [%s]", tr.Err)
 	}
@@ -244,17 +245,17 @@ func c16Check(c c16Case, tr *harness.Trace) string {
 
 // C16-string-int-loop: a numeric string as start or step is run as an integer loop.
 func c16KFStringStartStep(c c16Case) bool {
-	return c.A.kind() == 's' || c.C.kind() == 's'
+	return c.A.Kind() == 's' || c.C.Kind() == 's'
 }
 
 // C16-float-nan-inf-step: float loop whose control variable becomes NaN/unordered
 // never ends (start/limit/step with NaN, or inf start with opposite inf step).
 func c16KFUnordered(c c16Case) bool {
-	isF := func(o opnd) (float64, bool) {
-		n, ok := o.num()
+	isF := func(o Opnd) (float64, bool) {
+		n, ok := o.Num()
 		if !ok {
-			if o.kind() == 's' {
-				m, ok2 := numref.StringToNumber(o.str())
+			if o.Kind() == 's' {
+				m, ok2 := numref.StringToNumber(o.Str())
 				return m.AsFloat(), ok2
 			}
 			return 0, false
@@ -278,7 +279,7 @@ func c16KFUnordered(c c16Case) bool {
 }
 
 func c16NonTrivial(c c16Case, accept []c16Outcome) bool {
-	kinds := map[byte]bool{c.A.kind(): true, c.B.kind(): true, c.C.kind(): true}
+	kinds := map[byte]bool{c.A.Kind(): true, c.B.Kind(): true, c.C.Kind(): true}
 	if len(kinds) > 1 {
 		return true
 	}
@@ -287,9 +288,9 @@ func c16NonTrivial(c c16Case, accept []c16Outcome) bool {
 			return true
 		}
 	}
-	for _, o := range []opnd{c.A, c.B, c.C} {
-		if o.kind() == 'i' {
-			if v := o.int(); v > math.MaxInt64-1024 || v < math.MinInt64+1024 {
+	for _, o := range []Opnd{c.A, c.B, c.C} {
+		if o.Kind() == 'i' {
+			if v := o.Int(); v > math.MaxInt64-1024 || v < math.MinInt64+1024 {
 				return true
 			}
 		}
@@ -299,7 +300,7 @@ func c16NonTrivial(c c16Case, accept []c16Outcome) bool {
 
 func TestC16(t *testing.T) {
 	rec := ev.New("C16")
-	defer finish(t, rec)
+	defer Finish(t, rec)
 	rec.Rule("exhaustive (start,limit,step) triples over a 38-value lattice (ints around 0, 2^53, min/maxinteger; floats incl. ±0, ±2^63, ±inf, NaN; numeric strings; non-numbers), each run with runtime operands and with literal operands, body capped at 50 iterations and assigning to the loop variable; plus rapid-drawn triples near the boundaries. Oracle: big-integer/IEEE loop model (internal/numref.ForLoop). Non-trivial: operand kinds are mixed, or an error/clipping/overflow is involved, or the loop runs >= 2 iterations; distinct by (triple, route).")
 	rec.Assume("float loops: the manual's 'arithmetic progression' admits accumulation (reference implementation) and multiplication; when they differ on the first 50 terms both are accepted")
 	rec.Assume("NaN operands and numeric-string operands: the manual is silent; the reference implementation's behaviour and the reading 'zero iterations'/'error' are both accepted, termination is always required")
@@ -321,11 +322,11 @@ func TestC16(t *testing.T) {
 		return
 	}
 
-	kfStr := checkKnown(rec, "C16-string-int-loop", func() bool {
-		return c16Check(c16Case{oStr("1"), oInt(2), oInt(1), "args"}, run.run(c16Case{oStr("1"), oInt(2), oInt(1), "args"})) != ""
+	kfStr := CheckKnown(rec, "C16-string-int-loop", func() bool {
+		return c16Check(c16Case{OStr("1"), OInt(2), OInt(1), "args"}, run.run(c16Case{OStr("1"), OInt(2), OInt(1), "args"})) != ""
 	})
-	kfNaN := checkKnown(rec, "C16-unordered-float-loop", func() bool {
-		c := c16Case{oFloat(math.Inf(1)), oFloat(math.Inf(-1)), oFloat(math.Inf(-1)), "args"}
+	kfNaN := CheckKnown(rec, "C16-unordered-float-loop", func() bool {
+		c := c16Case{OFloat(math.Inf(1)), OFloat(math.Inf(-1)), OFloat(math.Inf(-1)), "args"}
 		return c16Check(c, run.run(c)) != ""
 	})
 	excluded := func(c c16Case) bool {
@@ -365,7 +366,7 @@ func TestC16(t *testing.T) {
 		if hasStr {
 			rec.Class("string-operand")
 		}
-		rec.Sample(map[string]any{"for": [3]string{c.A.pretty(), c.B.pretty(), c.C.pretty()}, "route": c.Route, "expected": accept[0].String()})
+		rec.Sample(map[string]any{"for": [3]string{c.A.Pretty(), c.B.Pretty(), c.C.Pretty()}, "route": c.Route, "expected": accept[0].String()})
 		return c16Check(c, tr)
 	}
 
@@ -415,13 +416,13 @@ func TestC16(t *testing.T) {
 		rapid.Float64(),
 	)
 	genOp := rapid.OneOf(
-		rapid.Map(genInt, oInt), rapid.Map(genInt, oInt), rapid.Map(genFloat, oFloat),
-		rapid.SampledFrom([]opnd{oStr("10"), oStr("-1"), oStr("1e1"), oStr("0x7fffffffffffffff"), oNil, oStr("a"), oTable, oTrue}),
+		rapid.Map(genInt, OInt), rapid.Map(genInt, OInt), rapid.Map(genFloat, OFloat),
+		rapid.SampledFrom([]Opnd{OStr("10"), OStr("-1"), OStr("1e1"), OStr("0x7fffffffffffffff"), ONil, OStr("a"), OTable, OTrue}),
 	)
-	runRapid(rec, "C16/random", rec.Pick(6000, 60000), 0, func(t *rapid.T) {
+	RunRapid(rec, "C16/random", rec.Pick(6000, 60000), 0, func(t *rapid.T) {
 		c := c16Case{genOp.Draw(t, "start"), genOp.Draw(t, "limit"), genOp.Draw(t, "step"), rapid.SampledFrom([]string{"args", "literal"}).Draw(t, "route")}
 		if msg := evalCase(c); msg != "" {
-			failCase(t, "triple", c, "%s", msg)
+			FailCase(t, "triple", c, "%s", msg)
 		}
 	})
 }
